@@ -137,11 +137,13 @@ fn pf(bits: u64) -> PageTableFlags {
     PageTableFlags::from_bits_truncate(bits)
 }
 
-fn map_err_name<S: PageSize>(e: MapToError<S>) -> String {
+/// `given` is the frame the caller passed in: PageAlreadyMapped hands exactly that frame back (it is the caller's to reuse)
+fn map_err_name<S: PageSize>(e: MapToError<S>, given: PhysFrame<S>) -> String {
     match e {
         MapToError::FrameAllocationFailed => "FrameAllocationFailed".into(),
         MapToError::ParentEntryHugePage => "ParentEntryHugePage".into(),
-        MapToError::PageAlreadyMapped(_) => "PageAlreadyMapped".into(),
+        MapToError::PageAlreadyMapped(f) if f == given => "PageAlreadyMapped".into(),
+        MapToError::PageAlreadyMapped(f) => format!("PageAlreadyMapped(returns {:#x}, not the caller's frame)", f.start_address().as_u64()),
     }
 }
 
@@ -167,7 +169,7 @@ fn exec_sz<S: Sz, M: Mapper<S>>(m: &mut M, op: &Op, alloc: &mut ArenaAlloc) -> O
                     f.ignore();
                     Out::MapOk { flush: p }
                 }
-                Err(e) => Out::MapErr(map_err_name(e)),
+                Err(e) => Out::MapErr(map_err_name(e, fr(*frame))),
             }
         }
         Op::IdentityMap { frame, flags, .. } => match unsafe { m.identity_map(fr(*frame), pf(*flags), alloc) } {
@@ -176,7 +178,7 @@ fn exec_sz<S: Sz, M: Mapper<S>>(m: &mut M, op: &Op, alloc: &mut ArenaAlloc) -> O
                 f.ignore();
                 Out::MapOk { flush: p }
             }
-            Err(e) => Out::MapErr(map_err_name(e)),
+            Err(e) => Out::MapErr(map_err_name(e, fr(*frame))),
         },
         Op::Unmap { page, .. } => match m.unmap(pg(*page)) {
             Ok((f, fl)) => {
@@ -814,6 +816,7 @@ fn judge(exp: &Exp, out: &Out, op: &Op) -> Option<(&'static str, String)> {
         (Exp::Clean, Out::Clean) => None,
         (Exp::AnyErr, o) => {
             if o.is_ok() {
+                // (for translate_page this is also a translation the history does not dictate: C01 is tagged by the caller)
                 Some(("C02", "Ok-for-a-size-that-is-not-mapped-there".into()))
             } else {
                 None
@@ -868,31 +871,6 @@ fn pre_snap_read(s: &Option<&Vec<u64>>, fi: usize, idx: usize) -> Option<u64> {
 }
 
 /// model-independent monitors only (after a violation of another property de-synchronised the model)
-/// leaf-position entries of the hierarchy as (virtual base, level, raw): present leaves, and non-present remnants that sit
-/// at level 1 or carry the page-size bit (guard pages). Second list: non-present entries at a table position (disabled
-/// parents), which a failing map_to may legitimately re-enable by adding the requested parent flags.
-fn raw_leaves(d: &hwwalk::Dump) -> (Vec<(u64, u8, u64)>, Vec<(u64, u8)>) {
-    fn rec(k: &BTreeMap<u16, RNode>, level: u8, base: u64, out: &mut Vec<(u64, u8, u64)>, off: &mut Vec<(u64, u8)>) {
-        for (&i, n) in k.iter() {
-            let b = base | ((i as u64) << (12 + 9 * (level as u32 - 1)));
-            match n {
-                RNode::Leaf { raw } => out.push((b, level, *raw)),
-                RNode::Garbage { raw } | RNode::Dangling { raw } => {
-                    if level == 1 || (level < 4 && raw & PS != 0) {
-                        out.push((b, level, *raw))
-                    } else {
-                        off.push((b, level))
-                    }
-                }
-                RNode::Table { kids, .. } => rec(kids, level - 1, b, out, off),
-            }
-        }
-    }
-    let (mut out, mut off) = (Vec::new(), Vec::new());
-    rec(&d.kids, 4, 0, &mut out, &mut off);
-    (out, off)
-}
-
 /// the recursive addresses of all tables of a hierarchy (from a raw dump), the level-4 table included
 fn recursive_table_vas(ri: u64, d: &Dump) -> BTreeSet<u64> {
     fn rec(k: &BTreeMap<u16, RNode>, path: &mut Vec<u64>, ri: u64, out: &mut BTreeSet<u64>) {
@@ -953,6 +931,44 @@ fn recursive_access_expected(ri: u64, acc: u64, op: &Op) -> bool {
     }
 }
 
+/// Leaf-position entries (va, level, raw) found by walking raw memory the way the MMU would, but ALSO through "parked"
+/// parents: a non-present, non-zero entry at a table position whose address is a frame the mapper allocated as a table.
+/// What sits under a parked parent is part of the hierarchy a kernel will re-enable, and a failing call must leave it alone.
+fn leaf_entries_incl_parked(st: &State, root: u64, skip_l4: Option<u16>) -> Vec<(u64, u8, u64)> {
+    fn rec(st: &State, fi: usize, level: u8, base: u64, skip_l4: Option<u16>, out: &mut Vec<(u64, u8, u64)>) {
+        for i in 0..512usize {
+            if level == 4 && Some(i as u16) == skip_l4 {
+                continue;
+            }
+            let raw = st.read(fi, i);
+            if raw == 0 {
+                continue;
+            }
+            let b = base | ((i as u64) << (12 + 9 * (level as u32 - 1)));
+            let present = raw & P != 0;
+            let ps = raw & PS != 0;
+            if level == 1 || (ps && level < 4) {
+                out.push((b, level, raw));
+                continue;
+            }
+            match st.frame_index(raw & ADDR) {
+                Some(c) if c != fi && (present || st.role[c] == Role::Allocated) => rec(st, c, level - 1, b, skip_l4, out),
+                _ => {
+                    if present {
+                        out.push((b, level, raw)) // a link to memory outside the simulation
+                    }
+                    // a non-present entry that is not a parked table: a disabled parent of something else, free to change
+                }
+            }
+        }
+    }
+    let mut out = Vec::new();
+    if let Some(fi) = st.frame_index(root) {
+        rec(st, fi, 4, 0, skip_l4, &mut out);
+    }
+    out
+}
+
 fn step_desynced(env: &mut Env, op: &Op, rep: &mut Report, r: &mut Rng, mon: &Monitors) -> StepResult {
     let mut st = env.arena.st();
     st.begin_call();
@@ -961,6 +977,7 @@ fn step_desynced(env: &mut Env, op: &Op, rep: &mut Report, r: &mut Rng, mon: &Mo
     let root = env.arena.root_phys();
     let is_clean = matches!(op, Op::CleanUp | Op::CleanRange { .. });
     let pre_dump = hwwalk::dump_skip(&st, root, env.rec);
+    let pre_leaves = leaf_entries_incl_parked(&st, root, env.rec);
     env.last_pf.borrow_mut().clear();
     env.history.push(op.to_json());
     let out = env.exec(op);
@@ -997,12 +1014,15 @@ fn step_desynced(env: &mut Env, op: &Op, rep: &mut Report, r: &mut Rng, mon: &Mo
     // model-free failure atomicity (C02): a call that reports an error - or only answers a question - leaves every
     // leaf entry of the hierarchy, present or not, exactly as it was; whatever state the tables are in
     if matches!(out, Out::MapErr(_) | Out::UnmapErr(_) | Out::FlagsErr(_) | Out::SetErr(_) | Out::TpErr(_) | Out::TpOk { .. }) {
-        let ((a, off), (b, _)) = (raw_leaves(&pre_dump), raw_leaves(&post));
-        let under_disabled = |va: u64| off.iter().any(|&(base, lvl)| va >> (12 + 9 * (lvl as u32 - 1)) == base >> (12 + 9 * (lvl as u32 - 1)));
+        let (a, b) = (&pre_leaves, leaf_entries_incl_parked(&st, root, env.rec));
         let lost = a.iter().find(|x| !b.contains(x)).cloned();
-        let gained = b.iter().find(|x| !a.contains(x) && !under_disabled(x.0)).cloned();
+        let gained = b.iter().find(|x| !a.contains(x)).cloned();
         if lost.is_some() || gained.is_some() {
             viol(rep, env, "C02", format!("{}|{}|{}|leaf-entries-changed-by-a-call-that-reported-an-error", kname, opn, out.short()), op, vec![("entry_before(va,level,raw)", J::s(format!("{:x?}", lost))), ("entry_after(va,level,raw)", J::s(format!("{:x?}", gained)))]);
+            // a present leaf that appears or disappears is also a translation the successful calls do not dictate
+            if lost.map(|x| x.2 & P != 0).unwrap_or(false) || gained.map(|x| x.2 & P != 0).unwrap_or(false) {
+                viol(rep, env, "C01", format!("{}|{}|{}|translation-changed-by-a-call-that-reported-an-error", kname, opn, out.short()), op, vec![("entry_before(va,level,raw)", J::s(format!("{:x?}", lost))), ("entry_after(va,level,raw)", J::s(format!("{:x?}", gained)))]);
+            }
         }
     }
     if let Some(snap) = pre_snap {
@@ -1087,7 +1107,9 @@ fn step_synced(env: &mut Env, op: &Op, fail: Fail, rep: &mut Report, r: &mut Rng
 
     // 1. result value
     if let Some((prop, kind)) = judge(&applied.exp, &out, op) {
-        if prop == "C11" {
+        // a wrong flush token, and a translate_page that reports a mapping of a size that is not there, are also
+        // statements about translations that the history does not dictate (C01)
+        if prop == "C11" || (matches!(op, Op::TranslatePage { .. }) && out.is_ok() && kind.starts_with("Ok-for-a-size")) {
             viol(rep, env, "C01", format!("{}|{}|{}|{}", kname, opn, cls_sig(&cls), kind), op, vec![("expected", J::s(format!("{:?}", applied.exp))), ("got", J::s(format!("{:?}", out)))]);
         }
         viol(rep, env, prop, format!("{}|{}|{}|{}", kname, opn, cls_sig(&cls), kind), op, vec![("expected", J::s(format!("{:?}", applied.exp))), ("got", J::s(format!("{:?}", out))), ("state_class", J::s(cls.clone()))]);
@@ -1857,7 +1879,7 @@ pub fn run(a: &Args, rep: &mut Report, focus: &str) {
         // only the dump-vs-model comparison and a few probes
         let mon = Monitors { probes: a.get_u64("probes", 1) != 0, bytediff: a.get_u64("bytediff", if under_miri { 0 } else { 1 }) != 0, max_probes: a.get_u64("max_probes", if under_miri { 3 } else { 0 }) as usize };
         // every sixth history leaves the documented domain (model-independent monitors only)
-        let ext = !under_miri && h % 6 == 5 && focus != "c01" && focus != "c20";
+        let ext = !under_miri && h % 6 == 5 && focus != "c20";
         run_history_ext(kind, &mut r, rep, focus, len, nframes, focus == "c02" && !under_miri, &mon, ext);
         if ext {
             rep.count("extended_domain_histories", 1);
